@@ -26,6 +26,8 @@ type vArgIn struct {
 
 type vArg struct {
 	Item
+	Lo  string `sod:"lower"`
+	LoI string `sod:"lower,index"`
 	A   int64 `sod:"index"`
 	U   uint64
 	Ptr *int64
@@ -47,7 +49,8 @@ func VH_C19_args() {
 		vAssert("C19.args.insert", db.InsertOrUpdate(&vArg{A: 1, U: 2, Ptr: &p, In: vArgIn{3}, PIn: &vArgIn{4}}) == nil)
 		vAssert("C19.args.insert2", db.InsertOrUpdate(&vArg{A: 2}) == nil)
 	}
-	fields := []string{"A", "U", "Nope", "Ptr", "A.X", "Ptr.X", "In", "In.X", "PIn", "PIn.X", "In.Nope", "", "."}
+	fields := []string{"A", "U", "Nope", "Ptr", "A.X", "Ptr.X", "In", "In.X", "PIn", "PIn.X", "In.Nope", "", ".",
+		"Item.uuid", "Item", "Lo", "LoI", "uuid"}
 	ops := []string{"=", "!=", "<", "<=", ">", ">=", "~=", "??", ""}
 	field := fields[vChoice("field", len(fields))]
 	op := ops[vChoice("operator", len(ops))]
@@ -156,7 +159,8 @@ func VH_C19_object_tree() {
 	vAssert("C19.obj.close", db.Close() == nil)
 	dir := root + "/sod.vObj"
 	file := dir + "/" + o.UUID() + ".json"
-	switch vChoice("damage", 6) {
+	dmg := vChoice("damage", 6)
+	switch dmg {
 	case 0:
 		k := vLen("mutation", 0, vBound("MUTO", 60))
 		if !vMutateJSON(file, k) {
@@ -176,6 +180,15 @@ func VH_C19_object_tree() {
 	case 5: // sub-directories, one of them named like an object
 		vMkdir(dir + "/subdir")
 		vMkdir(dir + "/cccccccc-cccc-4ccc-8ccc-cccccccccccc.json")
+	}
+	if dmg == 1 || dmg == 2 {
+		// the only object is unreadable: a search that has to read it cannot be
+		// evaluated, so it must report an error rather than a (partial) result
+		db2 := Open(root)
+		s := db2.Search(&vObj{}, "U", ">=", uint64(0))
+		vAssert("C19.obj.unreadable_object_is_an_error", s.Err() != nil && s.Len() == 0)
+		_, aerr := db2.All(&vObj{})
+		vAssert("C19.obj.unreadable_object_all_error", aerr != nil)
 	}
 	vhC19UseAll("C19.obj.nopanic", Open(root), o.UUID())
 }
